@@ -7,6 +7,7 @@
 -/
 import PintModel.Model.EvalTree
 import PintModel.Gen.EvalTables
+import PintModel.Proofs.EvalTreeLemmas
 
 namespace Pint.Props.C07
 open Pint Pint.Eval
@@ -84,5 +85,27 @@ example : (buildEvalTree Gen.opPriority
 
 example : (buildEvalTree Gen.opPriority
     [T .op "(", T .name "a", T .other "", T .endmarker ""]).toOption = none := by decide +kernel
+
+/-! ### the parser neither drops, reorders nor invents anything (`Proofs/EvalTreeLemmas.lean`) -/
+
+/-- **yield**: for the bundled priority table, the leaves of the parsed tree, read in order, are exactly the
+    operand tokens (numbers and names) of the input up to its end marker — no operand is dropped, duplicated
+    or reordered, parentheses included -/
+theorem C07_leaves {toks : List Token} {t : Tree} (h : buildEvalTree Gen.opPriority toks = .ok t) :
+    t.leaves = operands (beforeEnd toks) := buildEvalTree_leaves_bundled h
+
+/-- … and its operators, read in order, are exactly the operator tokens of the input -/
+theorem C07_ops {toks : List Token} {t : Tree} (h : buildEvalTree Gen.opPriority toks = .ok t) :
+    t.ops = operators Gen.opPriority (beforeEnd toks) := buildEvalTree_ops_bundled h
+
+/-- for any priority table: every operator of the tree is an operator token of the input, every leaf an operand token -/
+theorem C07_nothing_invented {prio : Prio} {toks : List Token} {t : Tree} (h : buildEvalTree prio toks = .ok t) :
+    (∀ s ∈ t.ops, ∃ tok ∈ toks, tok.kind = .op ∧ tok.text = s) ∧
+    (∀ tok ∈ t.leaves, tok ∈ toks ∧ (tok.kind = .number ∨ tok.kind = .name)) :=
+  ⟨buildEvalTree_ops_mem h, buildEvalTree_leaves_mem h⟩
+
+/-- the regenerated priority table is well formed (no "<none>" entry, non-negative priorities, an implicit-product entry) -/
+theorem C07_prio_wf : PrioWF Gen.opPriority := prioWF_opPriority
+
 
 end Pint.Props.C07
